@@ -262,6 +262,7 @@ class NetworksConfigConstructor:
         for port in range(8000, 9001):
             if self._check_port_available(hostname, port):
                 return port
+        raise ValueError("No unused port between 8000 and 9000 on {}".format(hostname))
 
     def _check_port_available(self, hostname, port):
         """
